@@ -156,9 +156,28 @@ class Run:
         fn = node if hasattr(node, '_fields') else astutil.parse_expr(found)
         if wn is not None and fn is not None and astutil.src(fn) == astutil.src(wn):
             return self.ok(rule, func, where, slot, found=found[:200])
+        if self._same_call(wn, fn, func):
+            return self.ok(rule, func, where, slot, found=found[:200])
         if wn is not None and fn is not None and astutil.skeleton(fn) == astutil.skeleton(wn):
             return self.bad(rule, func, where, slot, want, found[:200], extra={'consequence': consequence} if consequence else None)
         return self.unknown(rule, func, where, slot, f'shape not recognised (expected {want}; found {found[:160]})')
+
+    def _same_call(self, wn, fn, func):
+        """Two calls of the same resolved package function that bind every parameter to the same expression (one spelled with
+        keywords, the other positionally, or keywords in another order)."""
+        import ast
+        model = getattr(self, 'model', None)
+        if model is None or not (isinstance(wn, ast.Call) and isinstance(fn, ast.Call)) or not hasattr(func, 'module'):
+            return False
+        if astutil.src(wn.func) != astutil.src(fn.func):
+            return False
+        try:
+            a, b = model.bind(func, wn), model.bind(func, fn)
+        except Exception:
+            return False
+        if a is None or b is None:
+            return False
+        return {k: astutil.src(v) for k, v in a.items()} == {k: astutil.src(v) for k, v in b.items()}
 
     def returns(self, func, want, rule, slot, expand=True, consequence=None):
         """The function's single valued return (temporaries expanded) compared with ``want`` by :meth:`expr`."""
